@@ -44,6 +44,8 @@ class PropBase:
             "stats": ctx.stats, "digest": kernel.digest_events(ctx.events),
             "nontrivial": bool(ctx.nontrivial), "steps": ctx.nsteps, "sim_s": ctx.sim_s,
         }
+        if not ok:
+            res["events_tail"] = [str(e)[:300] for e in ctx.events[-14:]]
         if not ok or index < 3:
             d = ctx.make_doc()
             if not ok:
